@@ -8,6 +8,7 @@ import RosuModel.Model.AttrsWire
 import RosuModel.Model.ModsWire
 import RosuModel.Model.StrainsWire
 import RosuModel.Model.GenStateWire
+import RosuModel.Model.SafetyWire
 import RosuModel.Model.LifeWire
 import RosuModel.Model.FiniteWire
 
@@ -43,6 +44,12 @@ def handle (line : String) : String :=
   | ["SKILL", kind, fuel, objs] => StrainsWire.handleSKILL kind fuel objs
   | ["SECT", l, fuel, times] => StrainsWire.handleSECT l fuel times
   | "GS" :: mode :: args => GenState.handleGS mode args
+  | ["LQ", n, ops] => Safety.Wire.handleLQ n ops
+  | ["CC", ops] => Safety.Wire.handleCC ops
+  | ["FAC", total, rs, initial, upper, mode, seed, pats] => Safety.Wire.handleFAC total rs initial upper mode seed pats
+  | ["BAN", g, s, e, fuel] => Safety.Wire.handleBAN g s e fuel
+  | ["BANX", s, e] => Safety.Wire.handleBANX s e
+  | ["TKH", p, q, d] => Safety.Wire.handleTKH p q d
   | ["LIFE", mode, objs, sig, hist] => Lifetime.handleLife mode objs sig hist
   | "GSQ" :: mode :: args => GenState.handleGSQ mode args
   | "C09" :: args => Finite.handleFinite args
